@@ -15,7 +15,7 @@ pub struct Spec {
     pub space_az: f32,     // space AZIMUTH (clockwise from north, BDL)
     pub global_dev: f32,   // BUILD-PARAMETERS AZIMUTH
     pub window: usize,     // 0 none, 1 setback 0, 2 setback 0.2
-    pub shade: usize,      // 0 none, 1 rectangle, 2 vertices vertical, 3 vertices 45 deg, 4 vertices horizontal
+    pub shade: usize,      // 0 none, 1 rectangle, 2 vertices vertical, 3 vertices 45 deg, 4 vertices horizontal, 5..7 rectangle facing down / up / sloped
     pub poly_roof: bool,   // roof defined by its own polygon (tilt 30)
 }
 
@@ -139,6 +139,10 @@ pub fn geometry_bdl(s: &Spec) -> String {
     }
     match s.shade {
         1 => t.push_str("\"Sombra001\" = BUILDING-SHADE\n    BULB-TRA = \"Default.bulb\"\n    BULB-REF = \"Default.bulb\"\n    TRAN = 0\n    REFL = 0.7\n    X = 2\n    Y = -6\n    Z = 0.5\n    HEIGHT = 4\n    WIDTH = 7\n    AZIMUTH = 150\n    TILT = 90\n    ..\n"),
+        5 | 6 | 7 => {
+            let (az, tilt) = rect_shade_pose(s.shade).unwrap();
+            t.push_str(&format!("\"Sombra001\" = BUILDING-SHADE\n    TRAN = 0\n    REFL = 0.7\n    X = 2\n    Y = -6\n    Z = 0.5\n    HEIGHT = 4\n    WIDTH = 7\n    AZIMUTH = {}\n    TILT = {}\n    ..\n", az, tilt));
+        }
         2 => t.push_str("\"Sombra001\" = BUILDING-SHADE\n    TRAN = 0\n    REFL = 0.7\n    V1 =( 2, -5, 0 )\n    V2 =( 8, -6, 0 )\n    V3 =( 8, -6, 4 )\n    V4 =( 2, -5, 4 )\n    ..\n"),
         3 => t.push_str("\"Sombra001\" = BUILDING-SHADE\n    TRAN = 0\n    REFL = 0.7\n    V1 =( 2, -5, 1 )\n    V2 =( 8, -5, 1 )\n    V3 =( 8, -8, 4 )\n    V4 =( 2, -8, 4 )\n    ..\n"),
         4 => t.push_str("\"Sombra001\" = BUILDING-SHADE\n    TRAN = 0\n    REFL = 0.7\n    V1 =( 2, -1, 5 )\n    V2 =( 2, -4, 5 )\n    V3 =( 7.5, -4, 5 )\n    V4 =( 7.5, -1, 5 )\n    ..\n"),
@@ -266,13 +270,25 @@ pub fn reference(s: &Spec) -> Vec<RefWall> {
     v
 }
 
+/// (azimuth, tilt) of the rectangle-defined shades: vertical, facing down (the end of the legal tilt range), facing up, sloped
+pub fn rect_shade_pose(shade: usize) -> Option<(f64, f64)> {
+    match shade {
+        1 => Some((150.0, 90.0)),
+        5 => Some((150.0, 180.0)),
+        6 => Some((30.0, 0.0)),
+        7 => Some((300.0, 45.0)),
+        _ => None,
+    }
+}
+
 /// reference corners of the shade (building coordinates rotated by the global deviation)
 pub fn reference_shade(s: &Spec) -> Option<Vec<P3>> {
     let b = |p: P3| building_to_world(s, p);
     match s.shade {
-        1 => {
-            // X=2 Y=-6 Z=0.5 H=4 W=7 AZ=150 TILT=90: origin lower-left seen from outside; width to the right
-            let (az, tilt) = (150f64.to_radians(), 90f64.to_radians());
+        1 | 5 | 6 | 7 => {
+            // X=2 Y=-6 Z=0.5 H=4 W=7 AZ TILT: origin lower-left seen from outside; width to the right
+            let (az, tilt) = rect_shade_pose(s.shade).unwrap();
+            let (az, tilt) = (az.to_radians(), tilt.to_radians());
             let n = [tilt.sin() * az.sin(), tilt.sin() * az.cos(), tilt.cos()];
             let x = [-az.cos(), az.sin(), 0.0];
             let y = [n[1] * x[2] - n[2] * x[1], n[2] * x[0] - n[0] * x[2], n[0] * x[1] - n[1] * x[0]];
@@ -298,7 +314,7 @@ pub fn all_specs(tier: Tier) -> Vec<Spec> {
                     for space_az in [0.0f32, 90.0, 30.0] {
                         for &global_dev in &devs {
                             for window in 0..3 {
-                                for shade in 0..5 {
+                                for shade in 0..8 {
                                     // shade and window dimensions are independent of the rest: pair them cyclically in quick
                                     if tier == Tier::Quick && (shade + window + outline) % 3 != 0 {
                                         continue;
